@@ -306,7 +306,7 @@ func TestCheck(t *testing.T) {
 	peer.Register()
 	r := h.Start(t, "C08")
 	defer r.Finish()
-	r.Meta("rule", "a service publishes 33 functions of different shapes (context-taking functions with interface{} parameters and nil interface arguments, no/one/many parameters and results, error-returning, error-only, panicking with string/error/int/struct/runtime error, variadic of ints/strings/interfaces, context-taking, struct, struct pointer, maps, slices, interface{}, time/uuid, big numbers, pointers, named types, non-ASCII and namespaced names) as recording wrappers (reflect.MakeFunc) plus a missing-method handler (absent / plain / context-taking). Per transport {mock, tcp, unix, udp, net/http, fasthttp server, ws, ws-fasthttp; fasthttp client in processes of its own} x worker pool off/on x simple codec off/on x proxy with/without leading context: a proxy struct generated with reflect.StructOf (name tags in PRNG-drawn letter case) is filled by Client.UseService and every function is called with arguments drawn from the C01 value domain (boundary lists and PRNG); the same functions are also called through raw Client.Invoke, and unpublished names through both. Also: concurrent calls to different functions over one client (issued multiset == recorded multiset), and a proxy with nested, embedded (top level, inside a named part, two levels down), pointer and name-tagged parts whose every function must be bound to the name its position spells. Oracle: the recorder saw exactly one call, of the function published under that name, with arguments equal (typed, eqv.Equal; denotation for interface{} parameters) to those passed; the results equal those of calling the pure function locally with the same arguments; an error returned or a panic raised locally must arrive as an error with the same message. distinct_nontrivial = distinct (transport group, function, outcome class) cells")
+	r.Meta("rule", "a service publishes 33 functions of different shapes (context-taking functions with interface{} parameters and nil interface arguments, no/one/many parameters and results, error-returning, error-only, panicking with string/error/int/struct/runtime error, variadic of ints/strings/interfaces, context-taking, struct, struct pointer, maps, slices, interface{}, time/uuid, big numbers, pointers, named types, non-ASCII and namespaced names) as recording wrappers (reflect.MakeFunc) plus a missing-method handler (absent / plain / context-taking). Per transport {mock, tcp, unix, udp, net/http, fasthttp server, ws, ws-fasthttp; fasthttp client in processes of its own} x worker pool off/on x simple codec off/on x proxy with/without leading context: a proxy struct generated with reflect.StructOf (name tags in PRNG-drawn letter case) is filled by Client.UseService and every function is called with arguments drawn from the C01 value domain (boundary lists and PRNG); the same functions are also called through raw Client.Invoke, and unpublished names through both. Also: concurrent calls to different functions over one client (issued multiset == recorded multiset), and a proxy with nested, embedded (top level, inside a named part, two levels down), pointer and name-tagged parts whose every function must be bound to the name its position spells. Oracle: the recorder saw exactly one call, of the function published under that name, with arguments equal (typed, eqv.Equal; denotation for interface{} parameters) to those passed; the results equal those of calling the pure function locally with the same arguments; an error returned or a panic raised locally must arrive as an error with the same message. distinct_nontrivial = distinct (transport group, function, outcome class) cells Added: context-taking functions with interface{} parameters and nil interface arguments; a proxy with nested, embedded, pointer and name-tagged parts; JSON-RPC codec groups (typed proxies, JSON-representable values) over mock, http, fasthttp and tcp. Round 3 additions: net/rpc style methods, last results of concrete error types, one client pointed at two services in turn.")
 	r.Meta("assumptions", []string{"argument values from the C01 generator (depth 3)", "udp: calls whose encoded request or response exceeds a datagram are expected to fail and are not counted", "time values whose year is outside 0..9999 are not encodable (open C01 finding) and are skipped"})
 	var groups []group
 	kinds := peer.Kinds
